@@ -37,7 +37,7 @@ ASSUMPTIONS = [
     "'the end marker' = EI followed by a byte for which bytes.isspace() is true; inline data is written as ID<space>data<LF>EI<LF> and does not end in CR",
     "export formats limited to those that do not need Pillow (DCT pass-through, 1-bit / 8-bit gray / 8-bit RGB bitmaps)",
 ]
-PROBES = ["inline image", "xobject image", "gray8", "rgb8", "1bit", "dct", "filter chain", "unfiltered", "row padding needed", "boundary placed in inline markers", "contents split after image", "inline data contains EI", "preexisting export name", "two images same name", "bmp exported", "jpg exported"]
+PROBES = ["inline image ending at the ASCII85 marker", "inline image", "xobject image", "gray8", "rgb8", "1bit", "dct", "filter chain", "unfiltered", "row padding needed", "boundary placed in inline markers", "contents split after image", "inline data contains EI", "preexisting export name", "two images same name", "bmp exported", "jpg exported"]
 TIERS = {
     "quick": {"batches": 16, "runs": 450, "budget_s": 50},
     "thorough": {"batches": 128, "runs": 500, "budget_s": 1200},
@@ -93,7 +93,7 @@ def gen_image(t, ctx, idx):
         n = t.weighted([3, 4, 2], "chain.n")
         chain = [t.pick(FILTERS, "chain.f") for _ in range(n)]
         if inline and chain and chain[0] == "ASCII85Decode":
-            chain[0] = "ASCIIHexDecode"  # an ASCII85 inline image ends at ~> (its own marker), a separate code path
+            ctx.probe("inline image ending at the ASCII85 marker")  # ends at ~> (a code path of its own)
         data = samples
         for f in reversed(chain):
             data = encoders.ENCODERS[f](data, t)
@@ -105,6 +105,11 @@ def gen_image(t, ctx, idx):
 
 ABBR_F = {"FlateDecode": "Fl", "LZWDecode": "LZW", "RunLengthDecode": "RL", "ASCIIHexDecode": "AHx", "ASCII85Decode": "A85", "DCTDecode": "DCT"}
 ABBR_CS = {"DeviceGray": "G", "DeviceRGB": "RGB"}
+
+
+def inline_ok_a85(data):
+    """ASCII85-first inline data: the scanner ends at the first '~>' followed by white space (the encoder's EOD)."""
+    return data.endswith(b"~>") and b"~>" not in data[:-2]
 
 
 def inline_ok(data):
@@ -262,7 +267,7 @@ def run(tape, ctx, item=None):
     for i in range(t.rint(1, 4, "nimg")):
         for _ in range(20):
             im = gen_image(t, ctx, i)
-            if not im["inline"] or inline_ok(im["data"]):
+            if not im["inline"] or (inline_ok_a85(im["data"]) if im["chain"][:1] == ["ASCII85Decode"] else inline_ok(im["data"])):
                 break
         else:
             im["inline"] = False
